@@ -12,6 +12,11 @@ open RdfModel
 #print axioms RdfModel.C11.no_cross_syntax_identification
 #print axioms RdfModel.C11.rdfa_roundtrip
 #print axioms RdfModel.C11.rdfa_canonical_block
+#print axioms RdfModel.C11.rdfa_hanging_anonymous
+#print axioms RdfModel.C11.rdfa_chaining
+#print axioms RdfModel.C11.rdfa_inherited_subject
+#print axioms RdfModel.C11.rdfa_typed_bnode_object
+#print axioms RdfModel.C11.rdfa_inlist_collection
 #print axioms RdfModel.C11.microdata_roundtrip_validated
 #print axioms RdfModel.C11.microdata_roundtrip_partial
 #print axioms RdfModel.C11.jsonld_script_extracted
